@@ -184,14 +184,20 @@ def case_fallback(col, p):
         v = float(Fraction(target * math.log(10)) / (1 - wb))
         yb = 1.0
 
+    spectrum = p.get('rtype') == 'spectrum'
+
     def model(pts):
         if mode == 'lin':
             y0 = yb if pts == best_pts else v
         else:
             y0 = 1.0 if pts == best_pts else math.exp(v)
+        if spectrum:
+            fs = dadi.Spectrum([5.0, y0, 2.0, 5.0], mask_corners=True, pop_ids=['popA'])
+            fs.extrap_x = xmap[pts]
+            return fs
         return np.array([y0, 2.0])
 
-    f = dadi.Numerics.make_extrap_func(model, extrap_x_l=[xmap[q] for q in order], extrap_log=(mode == 'log'),
+    f = dadi.Numerics.make_extrap_func(model, extrap_x_l=None if spectrum else [xmap[q] for q in order], extrap_log=(mode == 'log'),
                                        fail_mag=fail_mag)
     try:
         res = f(list(order))
@@ -200,7 +206,14 @@ def case_fallback(col, p):
         col.violation('C07:make_extrap_func:k=%d:raises' % k, p, '%s: %s' % (type(e).__name__, e))
         return
     col.tick(transitions=1)
-    ylist = [model(q)[0] for q in order]
+    if spectrum:
+        # whether or not an entry fell back, a Spectrum-valued model gives a Spectrum with its labels, mask and folding status
+        if not isinstance(res, dadi.Spectrum) or res.pop_ids != ['popA'] or res.folded or list(np.ma.getmaskarray(res)) != [True, False, False, True]:
+            col.violation('C07:fallback:spectrum_attributes_lost', p, {'type': type(res).__name__, 'pop_ids': getattr(res, 'pop_ids', None),
+                                                                       'mask': [bool(x) for x in np.ma.getmaskarray(res)] if isinstance(res, np.ma.MaskedArray) else None})
+            return
+        res = np.asarray(res.data)[1:3]
+    ylist = [(float(np.asarray(model(q).data)[1]) if spectrum else model(q)[0]) for q in order]
     if mode == 'log':
         if not all(np.isfinite(ylist)) or min(ylist) <= 0:
             col.tick(skipped=1)
@@ -228,7 +241,7 @@ def case_fallback(col, p):
             col.violation('C07:fallback:taken_wrongly', p, {'got': got, 'want': want, 'decades': dec, 'fail_mag': fail_mag})
     if float(res[1]) != 2.0 and abs(float(res[1]) - 2.0) > 1e-9:
         col.violation('C07:fallback:harmless_entry_changed', p, {'got': float(res[1])})
-    col.distinct('nontrivial', ('fb', k, tuple(order), target, fail_mag, mode))
+    col.distinct('nontrivial', ('fb', k, tuple(order), target, fail_mag, mode, spectrum))
 
 
 def case_misc(col, p):
@@ -258,6 +271,14 @@ def case_misc(col, p):
                 col.tick(transitions=1)
                 if getattr(fs, 'extrap_x', None) != xx[1]:
                     col.violation('C07:from_phi:extrap_x', dict(p, d=d, pts=pts), repr(getattr(fs, 'extrap_x', None)))
+                if d >= 2:
+                    # grids that differ between dimensions (direct path): the tag is the FIRST population's first interior point (documented)
+                    grids = [np.linspace(0, 1, pts) ** (1.0 + 0.5 * q) for q in range(d)]
+                    fs2 = dadi.Spectrum.from_phi(phi, (3,) * d, grids, force_direct=True)
+                    col.tick(transitions=1)
+                    if getattr(fs2, 'extrap_x', None) != grids[0][1]:
+                        col.violation('C07:from_phi:extrap_x', dict(p, d=d, pts=pts, grids='different per dimension'),
+                                      {'got': repr(getattr(fs2, 'extrap_x', None)), 'first_grid': float(grids[0][1])})
     elif kind == 'missing_x':
         f = dadi.Numerics.make_extrap_func(lambda pts: np.array([1.0 * pts]))
         try:
@@ -334,8 +355,9 @@ def run(ctx):
                 for sgn in (1, -1):
                     for off in (-0.5, 0.5):
                         for mode in ('lin', 'log'):
-                            cases.append({'kind': 'fallback', 'k': k, 'order': order, 'target': sgn * (fail_mag + off),
-                                          'fail_mag': fail_mag, 'mode': mode})
+                            for rt in ('array', 'spectrum'):
+                                cases.append({'kind': 'fallback', 'k': k, 'order': order, 'target': sgn * (fail_mag + off),
+                                              'fail_mag': fail_mag, 'mode': mode, 'rtype': rt})
     for what in ('no_extrap', 'scalar_pts', 'extrap_x_recorded', 'missing_x'):
         cases.append({'kind': 'misc', 'what': what})
     # determinism self-test: first case twice
